@@ -1,8 +1,141 @@
-"""Self test of the explorer substrate (run by MANIFEST.setup_cmd)."""
+"""Self test of the explorer substrate (run by MANIFEST.setup_cmd).
+
+1. A two-thread lost-update toy: the explorer must find the lost update with
+   one deviation and must not find it with zero.
+2. A deadlock toy: a thread blocked with no deadline is reported as blocked.
+3. The virtual asyncio loop replays a timed scenario identically and fires
+   timers in deadline order.
+"""
+import os
 import sys
+
+HERE = os.path.dirname(os.path.dirname(os.path.abspath(__file__)))
+sys.path.insert(0, os.path.join(os.environ.get('VERIF_REPO', '/repo'), 'src'))
+
+from vf.explore import core  # noqa: E402
+from vf.vworld import clock as vclock  # noqa: E402
+from vf.vworld import vthreads  # noqa: E402
+
+
+class ToyWorld:
+    def __init__(self):
+        self.clock = vclock.VClock()
+        self.sched = vthreads.Sched(self.clock)
+        self.shared = 0
+
+    @property
+    def now(self):
+        return self.clock.now
+
+    def runnable(self):
+        return [vt.id for vt in self.sched.enabled()]
+
+    def step(self, actor):
+        self.sched.run_thread(self.sched.threads[actor])
+
+    def next_deadline(self):
+        return self.sched.next_deadline()
+
+    def advance_to(self, t):
+        self.clock.now = t
+
+    def teardown(self):
+        self.sched.kill()
+
+
+class LostUpdate(core.Scenario):
+    horizon = 10.0
+
+    def build(self):
+        w = self.world = ToyWorld()
+
+        def inc():
+            w.sched.point('read')
+            x = w.shared
+            w.sched.point('write')
+            w.shared = x + 1
+        self.scripts = [[core.Action('spawn-both', lambda sc: (w.sched.spawn(inc, 'a'),
+                                                                w.sched.spawn(inc, 'b')))]]
+
+    def finish(self):
+        if self.world.shared != 2:
+            self.flag('lost_update', 'shared=%d' % self.world.shared)
+
+    def observation(self):
+        return {'shared': self.world.shared}
+
+
+class Deadlock(core.Scenario):
+    horizon = 10.0
+
+    def build(self):
+        w = self.world = ToyWorld()
+        q = vthreads.VQueue(w.sched)
+
+        def joiner():
+            q.put(1)
+            q.join()
+        self.vt = None
+        self.scripts = [[core.Action('spawn', lambda sc: setattr(sc, 'vt', w.sched.spawn(joiner, 'j')))]]
+
+    def finish(self):
+        self.extra = {'blocked': [vt.name for vt in self.world.sched.blocked()]}
+
+    def observation(self):
+        return self.extra
+
+
+def loop_scenario():
+    import asyncio
+    from vf.vworld import vloop
+    ck = vclock.VClock()
+    lp = vloop.VLoop(ck)
+    log = []
+
+    async def sleeper(name, d):
+        await asyncio.sleep(d)
+        log.append((name, ck.now))
+        try:
+            await asyncio.wait_for(asyncio.sleep(10), 0.5)
+        except asyncio.TimeoutError:
+            log.append((name + '-timeout', ck.now))
+    with lp.enter():
+        lp.create_task(sleeper('b', 2.0))
+        lp.create_task(sleeper('a', 1.0))
+    while True:
+        while lp.has_ready():
+            lp.step()
+        d = lp.next_deadline()
+        if d is None:
+            break
+        ck.now = d
+        lp.fire_due()
+    lp.teardown()
+    return log
 
 
 def main():
+    fails = []
+    for bound, expect in ((0, False), (1, True)):
+        found = []
+        st = core.Stats()
+        core.explore_subtree(LostUpdate, {}, [], bound,
+                             lambda ex, p: found.extend(ex.violations), st)
+        if bool(found) != expect:
+            fails.append('lost-update toy at D=%d: found=%r (executions=%d)' % (bound, bool(found), st.executions))
+        print('toy lost update D<=%d: executions=%d outcomes=%d found=%s' % (bound, st.executions, len(st.outcomes), bool(found)))
+    ex = core.execute(Deadlock, {}, [])
+    if ex.obs != {'blocked': ['j']}:
+        fails.append('deadlock toy: %r' % (ex.obs,))
+    a, b = loop_scenario(), loop_scenario()
+    want = [('a', 1.0), ('a-timeout', 1.5), ('b', 2.0), ('b-timeout', 2.5)]
+    if a != b or a != want:
+        fails.append('vloop: %r' % (a,))
+    print('vloop timers:', a)
+    if fails:
+        for f in fails:
+            print('SELFTEST FAILURE:', f)
+        return 1
     print('selftest ok')
     return 0
 
